@@ -9,6 +9,6 @@ grep '^fixed:' KNOWN_FINDINGS.txt | while read -r _ prop commit rest; do
   [ -n "${1:-}" ] && [ "$1" != "$p" ] && continue
   f=selftest/reverts/$commit.diff
   [ -f "$f" ] || { echo "no revert patch for $commit"; continue; }
-  out=$(selftest/run.sh "$f" "$p" quick --skip-suite 2>&1 | grep SELFTEST | tail -1)
+  out=$(selftest/run.sh "$f" "$p" quick --skip-suite </dev/null 2>&1 | grep SELFTEST | tail -1)
   echo "$p $commit: $out"
 done
